@@ -77,6 +77,12 @@ func (e *evictionState[Type]) evict(slot Type) []Event {
 			eventsToTrigger = append(eventsToTrigger, slotEvictedEvent)
 			e.evictionEvents.Delete(i)
 		}
+
+		// stop here instead of incrementing past the last slot (the counter would wrap around and the loop would never
+		// terminate if slot is the largest value of the slot type)
+		if i == slot {
+			break
+		}
 	}
 
 	e.lastEvictedSlot = &slot
